@@ -13,6 +13,7 @@ def speed_strings(rng):
 
 class C11(scen.WorldProp):
     id = "C11"
+    fuzz_kinds = {"ring", "r_init", "r_bell", "r_setting"}
     lean_module = "Wheatley.Props.C11"
     theorems = ["Wheatley.C11.interval_formula",
                 "Wheatley.C11.blow_index",
